@@ -385,9 +385,7 @@ def h_sum_builtin(ip, st, a, kw, node):
     return app('sum', *[x if isinstance(x, (Poly, Tup, Const)) else P(x) for x in a], **kw)
 
 
-HANDLERS['zip'] = h_zip
-HANDLERS['enumerate'] = h_enumerate
-HANDLERS['sum'] = h_sum_builtin
+
 HANDLERS['numpy.sum'] = h_sum
 HANDLERS['numpy.meshgrid'] = h_meshgrid
 HANDLERS['numpy.clip'] = h_clip
@@ -442,3 +440,8 @@ ARRAY_METHODS_MUTATE = {
     'fill', 'sort', 'resize', 'put', 'itemset', 'append', 'extend', 'pop', 'insert', 'clear',
     'update', 'remove', 'reverse', 'setdefault', 'add', 'discard', 'setflags', 'partition',
 }
+
+# overrides of the generic entries above
+HANDLERS['zip'] = h_zip
+HANDLERS['enumerate'] = h_enumerate
+HANDLERS['sum'] = h_sum_builtin
